@@ -83,3 +83,21 @@ package aquahash
 //@   loop 1 invariant[C05] supply == old(supply) + unclesum(old(arr(uncles)), off(uncles), uint64($k), old(heapof("F:gitlab.com/aquachain/aquachain/core/types.Header.Number")), old(heapof("big")), h)
 //@   loop 1 invariant[C05] (forall j int :: 0 <= j && j < len(uncles) ==> big(uncles[j].Number) == old(big(uncles[j].Number)) && uncles[j].Number == old(uncles[j].Number) && uncles[j] == old(uncles[j])) && big(header.Number) == h
 //@   nopanic[C05]
+
+// ---- seal verification (C14) -------------------------------------------------------------------
+// Outside the fake and shared modes, for the argon2id versions: the seal is accepted exactly when
+// the epoch is in range, the difficulty is positive, the mix digest is all zero and the
+// version-selected hash of HashNoNonce || nonce (little endian) is at most 2^256 / difficulty.
+//@ func Aquahash.VerifySeal
+//@   requires aquahash != nil && aquahash.config != nil && header != nil && header.Number != nil && header.Difficulty != nil
+//@   requires aquahash.config.PowMode != ModeFake && aquahash.config.PowMode != ModeFullFake && aquahash.shared == nil
+//@   requires header.Version >= 2 && header.Version <= 4
+//@   let h = vhash(uint8(header.Version), word8(hnn(header), 0), word8(hnn(header), 8), word8(hnn(header), 16), word8(hnn(header), 24), noncerev(header.Nonce))
+//@   let zeromix = forall k int :: 0 <= k && k < 32 ==> header.MixDigest[k] == 0
+//@   ensures[C14] @epoch result == nil ==> L(big(header.Number)) / 30000 < 2048 && big(header.Difficulty) > 0
+//@   ensures[C14] @mix result == nil ==> zeromix
+//@   ensures[C14] @target result == nil ==> h <= TT256 / big(header.Difficulty)
+//@   ensures[C14] @complete L(big(header.Number)) / 30000 < 2048 && big(header.Difficulty) > 0 && zeromix && h <= TT256 / big(header.Difficulty) ==> result == nil
+//@   ensures[C14] @algo result == nil ==> (header.Version == 2 ==> argon_mem == 1) && (header.Version == 3 ==> argon_mem == 16) && (header.Version == 4 ==> argon_mem == 32)
+//@   loop 1 invariant[C14] 0 <= i && i <= 32
+//@   nopanic[C14]
